@@ -393,15 +393,8 @@ pub fn run_schedule(sc: &Scenario, readers: &[(Q, u32, Option<u64>)], release_or
     }
     match writer.join() {
         Ok(h) => {
-            for (q, off, _) in readers {
-                let got = answer(&h, *q, *off);
-                let want = answer(&post_host, *q, *off);
-                if got != want {
-                    problems.push(("stale-after-change".into(), format!("{q:?} on a snapshot taken after the change differs from a fresh analysis of the new workspace")));
-                }
-            }
-            // the same on the readers' own threads (what a cancelled query left behind on its
-            // thread must not reach the next request served there)
+            // first on the readers' own threads: what a cancelled query left behind on its thread
+            // must not reach the next request served there (and be memoised for everyone)
             for tx in &post_tx {
                 let _ = tx.send(h.snapshot());
             }
@@ -416,7 +409,14 @@ pub fn run_schedule(sc: &Scenario, readers: &[(Q, u32, Option<u64>)], release_or
                     }
                 }
             }
-        }
+                    for (q, off, _) in readers {
+                let got = answer(&h, *q, *off);
+                let want = answer(&post_host, *q, *off);
+                if got != want {
+                    problems.push(("stale-after-change".into(), format!("{q:?} on a snapshot taken after the change differs from a fresh analysis of the new workspace")));
+                }
+            }
+}
         Err(_) => problems.push(("panic".into(), "apply_change panicked".into())),
     }
     RunResult { reader_outcomes: outcomes, problems, n_checks, cancelled_mid }
